@@ -345,6 +345,8 @@ def run(F, res, tier):
     lambda_param_range(F, res)
     resolver_provenance(F, res)
     qualifier_first(F, res)
+    qualified_value_kinds(F, res)
+    namespaces(F, res)
     # ---- S4
     rn = F.fn("ide::def::resolver::Resolver::resolve_name")
     names = [(b, FL.short(callee(t) or callee_def(t))) for b, t in rn.calls()]
@@ -509,3 +511,173 @@ def qualifier_first(F, res):
     ok = first is not None and fallback is not None and fallback[1] == first[0]
     res.ob("S4", "type-name/qualifier-first", "`module.Type` is looked up in the module named by the qualifier first; the current module's scope is only the fallback",
            ok, where=f.loc(), how="qualified lookup (and_then .. resolve_module) feeds or_else(resolve_type): %s" % ok)
+
+
+RR = "ide::def::resolver::ResolveResult"
+
+
+def qualified_value_kinds(F, res, rule="S6"):
+    """S6: `module.name` resolves for every kind of module-level value. The kinds are read from Resolver::resolve_name
+    (the ResolveResult variants it builds from the module scope's own values); the arm of each in the qualified-access
+    match of the inferencer must record a field resolution (what classify_node / go-to-definition later reads)."""
+    rn = F.fn("ide::def::resolver::Resolver::resolve_name")
+    drn = FL.Defs(rn)
+    loc = [b for b, t in rn.calls() if FL.short(callee(t) or callee_def(t)) == "ModuleScope::resolve_name_locally"]
+    kinds = set()
+    if loc:
+        for b, i, s in rn.stmts():
+            rv = s.get("rv")
+            if rv and rv["k"] == "agg" and rv.get("adt") == RR and rn.can_reach(loc[0], [b]) and b != loc[0]:
+                # built after the module-scope lookup and before the built-in fallback
+                bi = [bb for bb, t in rn.calls() if FL.short(callee(t) or callee_def(t)) == "BuiltIn::values"]
+                if not any(rn.dominates(x, b) for x in bi):
+                    kinds.add(rv["variant"])
+    res.floor("module-level value kinds built by Resolver::resolve_name", len(kinds), 3)
+    fn = F.fn("ide::ty::infer::InferCtx::infer_expr_inner")
+    d = FL.Defs(fn)
+    dm = F.discr_map(RR)
+    # the match on the result of the qualified lookup: resolve_name on a resolver made by resolver_for_toplevel
+    target = None
+    for b in sorted(fn.reachable()):
+        t = fn.term(b)
+        if t["k"] != "switch":
+            continue
+        l = op_local(t["op"])
+        o = d.origin(l) if l is not None else {}
+        if not (o.get("k") == "rv" and o["rv"]["k"] == "discr" and o["rv"]["of"] == RR):
+            continue
+        src = d.origin_place(o["rv"]["place"])
+        base = src
+        while base.get("k") == "field":
+            base = base["base"]
+        if base.get("k") == "call" and (callee(base["t"]) or "").endswith("Resolver::resolve_name"):
+            who = d.origin_op(base["t"]["args"][0])
+            wb = who
+            while wb.get("k") == "field":
+                wb = wb["base"]
+            if wb.get("k") == "call" and (callee(wb["t"]) or "").endswith("resolver_for_toplevel"):
+                target = (b, t)
+    if target is None:
+        res.anchor_missing(rule, "match on resolver_for_toplevel(..).resolve_name(label) in infer_expr_inner (qualified access)")
+        return
+    b0, t = target
+    tg, reach = regions(fn, t, avoid=b0)
+    common = set.intersection(*reach.values()) if len(reach) > 1 else set()
+    inv = {n: v for v, n in dm.items()}
+    for k in sorted(kinds):
+        tgt = tg.get(inv.get(k))
+        region = (reach[tgt] - common) if tgt is not None else set()
+        rec = False
+        for bb in sorted(region):
+            tt = fn.term(bb)
+            if tt["k"] == "call" and FL.short(callee(tt) or callee_def(tt)).endswith("HashMap::insert"):
+                o = d.origin_op(tt["args"][0])
+                names = []
+                while o.get("k") == "field":
+                    names += [e.get("n") for e in o.get("proj", []) if isinstance(e, dict)]
+                    o = o["base"]
+                if "field_resolution" in names:
+                    rec = True
+        res.ob(rule, "qualified/%s" % k, "`module.name` naming a %s records what it resolved to (else go-to-definition, references and rename "
+               "do not see the qualified occurrence)" % k, rec, where=fn.loc(t["ln"]),
+               how="arm records field_resolution" if rec else "the %s arm of the qualified-access match records nothing" % k)
+
+
+MD = "ide::def::hir_def::ModuleDefId"
+
+
+def _arm_kinds(F, fn_path, build_adt):
+    """ModuleDefId variants whose arm (in the match on a ModuleDefId inside fn_path) builds a `build_adt` value"""
+    fn = F.fn(fn_path)
+    d = FL.Defs(fn)
+    dm = F.discr_map(MD)
+    out = set()
+    for b in sorted(fn.reachable()):
+        t = fn.term(b)
+        if t["k"] != "switch":
+            continue
+        l = op_local(t["op"])
+        o = d.origin(l) if l is not None else {}
+        if not (o.get("k") == "rv" and o["rv"]["k"] == "discr" and o["rv"]["of"] == MD):
+            continue
+        tg, reach = regions(fn, t, avoid=b)
+        common = set.intersection(*reach.values()) if len(reach) > 1 else set()
+        for v, x in tg.items():
+            for bb in reach[x] - common:
+                for s in fn.blocks[bb]["stmts"]:
+                    rv = s.get("rv")
+                    if rv and rv["k"] == "agg" and rv.get("adt") == build_adt and rv.get("variant") not in ("Local", "BuiltIn", "Module"):
+                        out.add(dm[v])
+    return out
+
+
+def namespaces(F, res):
+    """S7: an unqualified import takes its items from the module the import statement names (full path through the module
+    map), not from any table keyed by local accessors. S8: the module scope's `values` only ever receives value kinds and
+    `types` only type kinds (the kinds are read from Resolver::resolve_name / resolve_type), and an imported item goes to
+    `types` only for `type X` imports and to `values` only otherwise."""
+    ri = F.fn("ide::def::scope::ModuleScope::resolve_import")
+    d = FL.Defs(ri)
+    ms = [(b, t) for b, t in ri.calls() if FL.short(callee(t) or callee_def(t)).endswith("module_scope")]
+    ok, why = bool(ms), "no module_scope call"
+    for b, t in ms:
+        o = d.origin_op(t["args"][-1])
+        base = o
+        while base.get("k") == "field":
+            base = base["base"]
+        if base.get("k") == "call" and (callee(base["t"]) or "").endswith("ModuleMap::file_for_module_name"):
+            a = d.origin_op(base["t"]["args"][1])
+            names = []
+            while a.get("k") == "field":
+                names += [e.get("n") for e in a.get("proj", []) if isinstance(e, dict)]
+                a = a["base"]
+            ok, why = "name" in names, "file_for_module_name(%s)" % (names or a.get("k"))
+        else:
+            ok = False
+            why = "the file comes from %s" % (FL.short(callee(base["t"]) or callee_def(base["t"])) if base.get("k") == "call" else base.get("k"))
+    res.ob("S7", "resolve_import/module-by-full-path", "the module an unqualified import takes its items from is looked up in the module map by the "
+           "import's full module path (nothing keyed by a local accessor or alias decides it)", ok, where=ri.loc(), how=why)
+    val_k = _arm_kinds(F, "ide::def::resolver::Resolver::resolve_name", RR)
+    typ_k = _arm_kinds(F, "ide::def::resolver::Resolver::resolve_type", RR)
+    res.analysed["value_kinds"] = sorted(val_k)
+    res.analysed["type_kinds"] = sorted(typ_k)
+    res.floor("ModuleDefId kinds the resolver treats as values / types", len(val_k) + len(typ_k), 5)
+    fn = F.fn("ide::def::scope::module_scope_with_map_query")
+    d = FL.Defs(fn)
+    allv = set(F.discr_map(MD).values())
+    n = 0
+    for b, t in fn.calls():
+        c = FL.short(callee(t) or callee_def(t))
+        if not c.endswith("::insert"):
+            continue
+        o = d.origin_op(t["args"][0])
+        names = []
+        while o.get("k") == "field":
+            names += [e.get("n") for e in o.get("proj", []) if isinstance(e, dict)]
+            o = o["base"]
+        which = "values" if "values" in names else "types" if "types" in names else None
+        if which is None:
+            continue
+        n += 1
+        ordn = [bb for bb, tt in fn.calls() if FL.short(callee(tt) or callee_def(tt)) == c].index(b)
+        v = d.origin_op(t["args"][2], ("Clone>::clone",))
+        gs = FL.gates(F, fn, [b], d)
+        from_import = any((g.get("callee") or "").endswith("ModuleScope::resolve_import") for g in gs)
+        if v.get("k") == "agg" and v["rv"].get("adt") == MD:
+            kinds = {v["rv"]["variant"]}
+        else:
+            kinds = set(allv)
+            for g in gs:
+                if g.get("ty") == MD or set(g.get("allowed") or []) <= allv and g.get("allowed") and all(isinstance(x, str) for x in g["allowed"]):
+                    kinds &= set(g["allowed"])
+        want = val_k if which == "values" else typ_k
+        res.ob("S8", "module-scope/%s/%d" % (which, ordn), "only %s kinds are bound in the module scope's `%s` (a type bound as a value hides the "
+               "constructor of the same name, and vice versa)" % ("value" if which == "values" else "type", which), kinds <= want,
+               where=fn.loc(t["ln"]), how="kinds that can reach this insert: %s" % sorted(kinds))
+        if from_import:
+            flag = [g["allowed"] for g in gs if g.get("allowed") in ([True], [False])]
+            need = [False] if which == "values" else [True]
+            res.ob("S8", "import/%s/%d" % (which, ordn), "an imported item is bound in `%s` only when the import %s written `type X`" %
+                   (which, "was" if which == "types" else "was not"), need in flag, where=fn.loc(t["ln"]),
+                   how="boolean gates on this insert: %s" % flag)
+    res.floor("inserts into the module scope's values/types", n, 7)
